@@ -92,10 +92,12 @@ F = {
     "p": {"decl": {"type": "opt_path_fr", "default": None}, "good": ["good.yaml", "$W/run/good.yaml"], "bad": [], "path": True},
     "pl": {"decl": {"type": "list_path_fr", "default": [], "enable_path": True}, "good": [["good.yaml"], "list.txt"], "bad": [["nofile"], 3], "path": True, "append": True},
     "pfc": {"decl": {"type": "path_fc", "default": "newfile"}, "good": ["newfile2"], "bad": ["nodir/x"], "path": True},
+    "ch": {"decl": {"nargs": "+", "choices": ["x", "y"], "default": ["x"]}, "good": [["x", "y"], ["y"]], "bad": ["x", ["z"], 3, {"a": 1}, []], "nargs": True},
+    "ch1": {"decl": {"choices": ["x", "y"], "default": "x"}, "good": ["x", "y"], "bad": ["z", 3, ["x"]]},
     "pi": {"decl": {"type": "pos_int", "default": 1}, "good": [3, "4"], "bad": ["x", -1, [1]]},
     "n": {"decl": {"type": "float", "nargs": "+", "default": [1.0]}, "good": [[1, 2]], "bad": [["x"]], "nargs": True},
 }
-PATH_STATES = ["good.yaml", "missing.yaml", "dir.yaml", "fifo.yaml", "dangling.yaml", "thru/x.yaml", "noperm.yaml", "$W/run/good.yaml", "~/h.yaml", "../run/good.yaml", "-", "nodir/x.yaml", "a\x00b.yaml", "", " ", ".", "good.yaml/", "--"]
+PATH_STATES = ["good.yaml", "missing.yaml", "dir.yaml", "fifo.pipe", "fifogood.pipe", "dangling.yaml", "thru/x.yaml", "noperm.yaml", "$W/run/good.yaml", "~/h.yaml", "../run/good.yaml", "-", "nodir/x.yaml", "a\x00b.yaml", "", " ", ".", "good.yaml/", "--"]
 CONTENT_FAULTS = ["truncated", "flip", "nonutf8", "empty", "binary", "nul", "cyclic", "cyclic-any", "list-doc", "scalar-doc", "dupkeys", "tabs", "bom", "unknown-key", "bad-value", "deep", "nonstr-keys", "merge-key", "multi-doc"]
 METHODS = ["args", "args", "args", "object", "string", "env", "path"]
 
@@ -234,7 +236,7 @@ def gen_argv(rng, feats, all_feats, spec_feats):
     if "base" in feats and rng.random() < 0.15:
         argv += rng.choice([["--base=Sub1", '--base.opts={"a": 1}', "--base=Sub3"], ["--base=Sub3", "--base.opts=2", "--base=Sub1"], ["--base=Sub1", "--base.child=Sub3", "--base.child.opts=x"], ["--base=Sub1", "--base.n=1", "--base=dsim.simtypes.Sub2", "--base.path=" + rng.choice(PATH_STATES)]])
     if "sub" in spec_feats and rng.random() < 0.7:
-        argv += rng.choice([["fit", "--lr=0.3"], ["fit", "--lr=x"], ["fit"], ["test", "nm"], ["test"], ["bogus"], ["fit", "--cfg", rng.choice(PATH_STATES)], ["fit", "--zz"], ["test", "nm", "extra"], ["fit", "--lr"], ["fit", "--model=Model", "--model.base=" + rng.choice(CLASSP + BADCLASSP)], ["fit", "--help"], ["fit", "--print_config"]])
+        argv += rng.choice([["--cfg", "{fit: 3}", "fit"], ["--cfg", "{fit: null}", "fit"], ["--cfg", "{test: x}", "test", "nm"], ["fit", "--lr=0.3"], ["fit", "--lr=x"], ["fit"], ["test", "nm"], ["test"], ["bogus"], ["fit", "--cfg", rng.choice(PATH_STATES)], ["fit", "--zz"], ["test", "nm", "extra"], ["fit", "--lr"], ["fit", "--model=Model", "--model.base=" + rng.choice(CLASSP + BADCLASSP)], ["fit", "--help"], ["fit", "--print_config"]])
     if "pos" in spec_feats and rng.random() < 0.6:
         argv.insert(rng.randrange(len(argv) + 1), rng.choice(["posval", "-", "--", "x y"]))
     return argv
@@ -261,7 +263,7 @@ def gen_obj(rng, feats, spec_feats):
     if "inner" in spec_feats and rng.random() < 0.25:
         o["inner"] = rng.choice([{"q": 3}, {"q": "x"}, {"zz": 1}, "inner.yaml", "missing.yaml", "fault.yaml", 3, None, ["x"]])
     if "sub" in spec_feats and rng.random() < 0.4:
-        o.update(rng.choice([{"fit": {"lr": 0.2}}, {"fit": {"lr": "x"}}, {"subcommand": "test", "test": {"name": "n"}}, {"subcommand": "nope"}, {"fit": 3}, {"fit": {"lr": 0.2}, "test": {"name": "q"}}, {"subcommand": 3}, {"fit": None}]))
+        o.update(rng.choice([{"subcommand": "fit", "fit": 3}, {"subcommand": "fit", "fit": None}, {"subcommand": "test", "test": "x"}, {"subcommand": "fit", "fit": [1]}, {"fit": {"lr": 0.2}}, {"fit": {"lr": "x"}}, {"subcommand": "test", "test": {"name": "n"}}, {"subcommand": "nope"}, {"fit": 3}, {"fit": {"lr": 0.2}, "test": {"name": "q"}}, {"subcommand": 3}, {"fit": None}]))
     return o
 
 
@@ -323,7 +325,7 @@ def generate(rng, tier):
         "run/list.txt": rng.choice(["good.yaml\n", "good.yaml\nmissing.yaml\n", "", "\x00\n", "good.yaml\n\n"]),
         "home/h.yaml": "a: 3\n" if "a" in feats else "{}\n",
     }
-    w = {"dirs": ["home", "run", "run/dir.yaml"], "files": files, "fifos": ["run/fifo.yaml"], "symlinks": {"run/dangling.yaml": "nothing"}, "cwd": "run", "env": {}}
+    w = {"dirs": ["home", "run", "run/dir.yaml"], "files": files, "fifos": ["run/fifo.pipe", "run/fifogood.pipe"], "fifo_content": {"run/fifogood.pipe": files["run/good.yaml"]}, "symlinks": {"run/dangling.yaml": "nothing"}, "cwd": "run", "env": {}}
     ops = []
     for _ in range(rng.randint(1, 4)):
         m = rng.choice(METHODS)
@@ -482,7 +484,7 @@ def execute(sc, ctx):
         if isinstance(op.get("stdin"), dict):
             sim.probe("stdin-closed")
         txt = json.dumps(op)
-        if any(s in txt for s in ("missing.yaml", "dir.yaml", "fifo.yaml", "dangling.yaml", "thru/x", "noperm.yaml")):
+        if any(s in txt for s in ("missing.yaml", "dir.yaml", "fifo.pipe", "dangling.yaml", "thru/x", "noperm.yaml")):
             sim.probe("cfg-path-state-fault")
         if any(c in txt for c in BADCLASSP[:5]):
             sim.probe("subclass-bad-import")
@@ -515,7 +517,12 @@ def execute(sc, ctx):
                 why = "exit status %r with exit_on_error=%s (stderr %r)" % (o.code, eoe, o.stderr[-120:])
         else:
             why = "%s escaped: %s" % (type(o.exc).__name__, o.text[:300])
-            if relaxed and o.injected:
+            if type(o.exc).__name__ == "WouldBlockForever" and sum(txt.count(n) for n in ("fifo.pipe", "fifogood.pipe", "fifo.yaml", "fifogood.yaml")) > 1:
+                # the operation itself names the one-shot FIFO more than once (two options pointing at it): the
+                # second use blocks in reality too, that is the caller's doing - no verdict
+                ok = True
+                sim.probe("fifo-multi-use")
+            elif relaxed and o.injected:
                 ok = True
                 sim.probe("injected-propagated")
             elif relaxed and "adversary" in ftypes and isinstance(o.exc, OSError):
@@ -528,7 +535,10 @@ def execute(sc, ctx):
             if o.kind == "exit":
                 exc = "SystemExit(%r)" % (o.code,)
             frames = o.frames or (harness.jsonargparse_frames(o.exc) if o.exc is not None else [])
-            if exc == "HangDetected":
+            if exc == "WouldBlockForever":
+                core = [f for f in frames if f.startswith(("_core:", "_actions:", "_typehints:"))]
+                frame = core[-1] if core else "?"
+            elif exc == "HangDetected":
                 core = [f for f in frames if f.startswith(("_core:", "_actions:", "_typehints:"))]
                 frame = "cyclic-alias" if cyc else (core[-1] if core else "?")
             elif exc == "RecursionError":
